@@ -236,7 +236,8 @@ class Monitor:
                         if not f.endswith(".npy") and not os.path.exists(f):
                             try:
                                 with open(f, "w") as fh:
-                                    fh.write("id     cn     neighborlist\n1 2 2 3\n2 1 1\n3 1 1\n" * 2)
+                                    # (different left-overs from call to call: a routine that appends writes different bytes each time)
+                                    fh.write("id     cn     neighborlist\n1 2 2 3\n2 1 1\n3 1 1\n" * (2 + self.nout % 3))
                             except OSError:
                                 pass
                     res = call.thunk()
